@@ -146,7 +146,10 @@ func newRelay(
 }
 
 // relayFrames reads frames from `f.src` to `f.dest` until an error occurs or the connection closes.
-func (r *relay) relayFrames(closing chan bool) error {
+//
+// `stop` tears the session down (it closes both connections and may be called more than once). It is
+// called when this direction ends, before waiting for the writer goroutine.
+func (r *relay) relayFrames(closing chan bool, stop func()) error {
 	// Shutting down producer-consumers linked by channels is subtle. In this function, the writer
 	// goroutine consumes frames from `r.output`, which are populated by the reader goroutine. If
 	// the writer shuts down before the reader, the reader may deadlock on inserting frames into
@@ -164,6 +167,11 @@ func (r *relay) relayFrames(closing chan bool) error {
 		// The peer relay emits into r.output as well (window changes announced by the destination). Once
 		// the writer goroutine is gone it must not wait for room in the channel.
 		close(r.stopped)
+		// The writer goroutine looks at readerDone only between two frames, and it may be in the middle of
+		// a write toward a destination that has stopped reading. Closing the connections first makes that
+		// write fail, instead of holding up this handshake - and the teardown by the caller, which comes
+		// after it - until the destination gives up.
+		stop()
 		readerDone <- struct{}{}
 	}()
 
